@@ -37,13 +37,13 @@ func (p *c12) specCase(w *lib.Worker, idx int, r *lib.Rand) lib.Case {
 		what = "fixture:" + names[r.Intn(len(names))]
 		text = c12Fixtures[strings.TrimPrefix(what, "fixture:")]
 	case r.P(0.15):
-		g := &gen.SpecGen{R: r, Tag: fmt.Sprintf("s%d", idx)}
+		g := &gen.SpecGen{R: r, Tag: fmt.Sprintf("s%d", idx%5)}
 		tree := g.Clean()
 		g.Apply(gen.Faults[r.Intn(len(gen.Faults))])
 		what = "generated-faulted"
 		text = gen.JSON(tree)
 	default:
-		g := &gen.SpecGen{R: r, Tag: fmt.Sprintf("s%d", idx)}
+		g := &gen.SpecGen{R: r, Tag: fmt.Sprintf("s%d", idx%5)}
 		text = gen.JSON(g.Clean())
 	}
 	c := lib.Case{Hash: lib.Hash64(text), Nontrivial: true, Tags: []string{"spec-level", "spec:" + strings.SplitN(what, ":", 2)[0]}}
